@@ -480,5 +480,137 @@ def cys_contact(rng, partner=("LYS", "NZ")):
     return None
 
 
+def polar_contact(rng, first=("TYR", "OH"), partner=("LYS", "NZ"), dmin=2.6, dmax=3.0, tries=200):
+    """two short peptides from the library, one around a `first` residue and one around a `partner` residue, the second moved rigidly
+    so that the two named atoms are dmin..dmax apart and no other atoms of the two peptides come closer than 3 A; chains A and B.
+    None if no placement is found."""
+    lib = library()
+    chains = [lib[k] for k in sorted(lib) if k[1] != "het"]
+    one = [(c, i) for c in chains for i, it in enumerate(c) if it[1][3] == first[0] and 0 < i < len(c) - 1]
+    two = [(c, i) for c in chains for i, it in enumerate(c) if it[1][3] == partner[0] and 0 < i < len(c) - 1]
+    if not one or not two:
+        return None
+    for _ in range(tries):
+        c1, i1 = one[rng.randrange(len(one))]
+        c2, i2 = two[rng.randrange(len(two))]
+        pa = relabel(flatten(c1[i1 - 1:i1 + 2]), chain="A")
+        pb = relabel(flatten(c2[i2 - 1:i2 + 2]), chain="B")
+        if any(l[16] != " " for l in pa + pb):
+            continue
+        s = [coords(l) for l in pa if l[17:20] == first[0] and l[12:16].strip() == first[1] and l[22:26] == c1[i1][1][1]]
+        n = [coords(l) for l in pb if l[17:20] == partner[0] and l[12:16].strip() == partner[1] and l[22:26] == c2[i2][1][1]]
+        if len(s) != 1 or len(n) != 1:
+            continue
+        while True:
+            v = [rng.uniform(-1, 1) for _ in range(3)]
+            r = sum(q * q for q in v) ** 0.5
+            if 0.2 < r <= 1.0:
+                break
+        d = rng.uniform(dmin, dmax)
+        tgt = [s[0][k] + d * v[k] / r for k in range(3)]
+        pb2 = translate(pb, *[round(tgt[k] - n[0][k], 3) for k in range(3)])
+        ok = True
+        for la in pa:
+            for lb in pb2:
+                dd = sum((x - y) ** 2 for x, y in zip(coords(la), coords(lb)))
+                special = (la[12:16].strip() == first[1] and la[17:20] == first[0] and la[22:26] == c1[i1][1][1]
+                           and lb[12:16].strip() == partner[1] and lb[17:20] == partner[0] and lb[22:26] == c2[i2][1][1])
+                if not special and dd < 9.0:
+                    ok = False
+                    break
+            if not ok:
+                break
+        if ok:
+            return pa + ["TER   \n"] + pb2 + ["TER   \n"]
+    return None
+
+
+def homodimer_ss(rng, tries=400):
+    """a peptide around a cysteine and its copy under a two-fold rotation placed so that the two SG atoms are 2.04 A apart and
+    nothing else of the two chains comes closer than 3 A: the symmetric inter-chain disulfide of a homodimer - both chains carry
+    the *same* residue numbers (chains A and B).  None if no placement is found."""
+    lib = library()
+    chains = [lib[k] for k in sorted(lib) if k[1] != "het"]
+    cys = [(c, i) for c in chains for i, it in enumerate(c) if it[1][3] == "CYS" and 1 < i < len(c) - 2 and any(l[12:16].strip() == "SG" for l in it[2])]
+    if not cys:
+        return None
+    for _ in range(tries):
+        c, i = cys[rng.randrange(len(cys))]
+        n = rng.randint(1, 2)
+        pa = relabel(flatten(c[i - n:i + n + 1]), chain="A")
+        if any(l[16] != " " for l in pa):
+            continue
+        sg = [coords(l) for l in pa if l[17:20] == "CYS" and l[12:16].strip() == "SG" and l[22:26] == c[i][1][1]]
+        if len(sg) != 1:
+            continue
+        sg = sg[0]
+        cen = [sum(coords(l)[k] for l in pa) / len(pa) for k in range(3)]
+        u = [sg[k] - cen[k] for k in range(3)]
+        nu = sum(x * x for x in u) ** 0.5
+        if nu < 1.0:
+            continue
+        u = [x / nu for x in u]
+        # a random direction perpendicular to u: the two-fold axis, through the point 1.02 A beyond SG
+        w = [rng.uniform(-1, 1) for _ in range(3)]
+        dp = sum(a * b for a, b in zip(w, u))
+        d = [w[k] - dp * u[k] for k in range(3)]
+        nd = sum(x * x for x in d) ** 0.5
+        if nd < 0.2:
+            continue
+        d = [x / nd for x in d]
+        q = [sg[k] + 1.02 * u[k] for k in range(3)]
+        pb = []
+        for l in relabel(pa, chain="B"):
+            x = coords(l)
+            r = [x[k] - q[k] for k in range(3)]
+            t = sum(a * b for a, b in zip(r, d))
+            y = [q[k] + 2 * t * d[k] - r[k] for k in range(3)]       # rotation by pi about the axis (q, d)
+            pb.append(set_coords(l, round(y[0], 3), round(y[1], 3), round(y[2], 3)))
+        ok = True
+        for la in pa:
+            for lb in pb:
+                dd = sum((x - y) ** 2 for x, y in zip(coords(la), coords(lb)))
+                both_sg = la[12:16].strip() == "SG" and lb[12:16].strip() == "SG" and la[22:27] == lb[22:27] and la[22:26] == c[i][1][1]
+                if both_sg:
+                    if not (3.9 < dd < 4.5):
+                        ok = False
+                elif dd < 9.0:
+                    ok = False
+                if not ok:
+                    break
+            if not ok:
+                break
+        if ok:
+            return pa + ["TER   \n"] + pb + ["TER   \n"]
+    return None
+
+
+# 2'-deoxyadenosine 5'-monophosphate, ideal geometry (base in the z = 0 plane): nucleotides are ATOM records which the parser turns
+# into hetero atoms; their ring nitrogens and phosphate oxygens carry *custom* model pKa values (custom_model_pkas DA-N1 ...)
+DA_ATOMS = [
+    ("P", -4.768, 4.448, -5.533), ("OP1", -3.706, 3.448, -5.780), ("OP2", -4.507, 5.693, -6.290), ("O5'", -4.756, 4.806, -3.973),
+    ("C5'", -3.581, 5.361, -3.376), ("C4'", -3.818, 5.610, -1.905), ("O4'", -2.568, 5.977, -1.269), ("C3'", -4.283, 4.340, -1.191),
+    ("O3'", -5.225, 3.637, -2.007), ("C2'", -3.778, 4.576, 0.244), ("C1'", -2.479, 5.346, 0.000), ("N9", -1.291, 4.498, 0.000),
+    ("C8", 0.024, 4.897, 0.000), ("N7", 0.877, 3.902, 0.000), ("C5", 0.071, 2.771, 0.000), ("C6", 0.369, 1.398, 0.000),
+    ("N6", 1.611, 0.909, 0.000), ("N1", -0.668, 0.532, 0.000), ("C2", -1.912, 1.023, 0.000), ("N3", -2.320, 2.290, 0.000),
+    ("C4", -1.267, 3.124, 0.000)]
+
+
+def add_nucleotide(lines, chain="N", resnum=1, gap=12.0):
+    """`lines` followed by a dAMP residue (ATOM records, residue name ' DA') placed `gap` A beyond the largest x of the structure"""
+    atoms = [l for l in lines if is_atom(l)]
+    cs = [coords(l) for l in atoms] or [(0.0, 0.0, 0.0)]
+    sx = max(c[0] for c in cs) + gap + 6.0
+    sy = sum(c[1] for c in cs) / len(cs)
+    sz = sum(c[2] for c in cs) / len(cs)
+    out = list(lines)
+    if atoms and not (out and out[-1].startswith("TER")):
+        out.append("TER   \n")
+    for k, (name, x, y, z) in enumerate(DA_ATOMS):
+        out.append("ATOM  %5d %-4s %3s %s%4d    %8.3f%8.3f%8.3f  1.00 20.00          %2s  \n" % (
+            9000 + k, (" " + name) if len(name) < 4 else name, "DA", chain, resnum, x + sx, y + sy, z + sz, name[0]))
+    return out
+
+
 def text(lines):
     return "".join(lines)
